@@ -16,6 +16,8 @@ package main
 
 import (
 	"fmt"
+	"os"
+	"path/filepath"
 	"go/types"
 	"strings"
 
@@ -87,7 +89,14 @@ func govcFill(v reflect.Value, rnd *rand.Rand, depth int) {
 		return
 	}
 	if v.Type() == reflect.TypeOf(time.Time{}) {
-		v.Set(reflect.ValueOf(govcBase.Add(time.Duration(rnd.Intn(6)) * time.Hour)))
+		tv := govcBase.Add(time.Duration(rnd.Intn(6)) * time.Hour)
+		switch rnd.Intn(4) {
+		case 0:
+			tv = tv.In(time.FixedZone("plus1", 3600)) // same instant, different representation
+		case 1:
+			tv = time.Unix(tv.Unix(), 0)
+		}
+		v.Set(reflect.ValueOf(tv))
 		return
 	}
 	switch v.Kind() {
@@ -107,19 +116,22 @@ func govcFill(v reflect.Value, rnd *rand.Rand, depth int) {
 		pool := []string{"", "a", "b", "c", "node", "way", "relation", "yes", "no"}
 		v.SetString(pool[rnd.Intn(len(pool))])
 	case reflect.Ptr:
-		if depth > 4 || (depth > 0 && rnd.Intn(6) == 0) {
+		if depth > 8 || (depth > 0 && rnd.Intn(6) == 0) {
 			return
 		}
 		p := reflect.New(v.Type().Elem())
 		govcFill(p.Elem(), rnd, depth+1)
 		v.Set(p)
 	case reflect.Slice:
-		if depth > 4 {
+		if depth > 8 {
 			return
 		}
 		n := rnd.Intn(5)
 		if n == 4 {
 			n = 2
+		}
+		if depth > 5 && n > 1 {
+			n = 1
 		}
 		s := reflect.MakeSlice(v.Type(), n, n+rnd.Intn(2))
 		for i := 0; i < n; i++ {
@@ -252,9 +264,30 @@ func runOracles(o *CheckOpts, prog *Program, oracles []*ssa.Function, budgetS in
 		return nil, "no oracle covers this obligation"
 	}
 	pkg := oracles[0].Pkg.Pkg
-	qual := types.RelativeTo(pkg)
+	imports := map[string]string{}
+	qual := func(p *types.Package) string {
+		if p == pkg {
+			return ""
+		}
+		switch p.Path() {
+		case "time", "fmt", "sort", "strings", "reflect", "testing":
+			return p.Name()
+		}
+		imports[p.Path()] = p.Name()
+		return p.Name()
+	}
+	// first pass over parameter types to collect imports
+	for _, fn := range oracles {
+		for _, prm := range fn.Params {
+			types.TypeString(prm.Type(), qual)
+		}
+	}
 	var sb strings.Builder
-	sb.WriteString(fmt.Sprintf("package %s\n\nimport (\n\t\"fmt\"\n\t\"math/rand\"\n\t\"reflect\"\n\t\"sort\"\n\t\"strings\"\n\t\"testing\"\n\t\"time\"\n)\n\nvar _ = sort.Strings\nvar _ = strings.Join\n", pkg.Name()))
+	sb.WriteString(fmt.Sprintf("package %s\n\nimport (\n\t\"fmt\"\n\t\"math/rand\"\n\t\"reflect\"\n\t\"sort\"\n\t\"strings\"\n\t\"testing\"\n\t\"time\"\n", pkg.Name()))
+	for path, name := range imports {
+		sb.WriteString(fmt.Sprintf("\t%s %q\n", name, path))
+	}
+	sb.WriteString(")\n\nvar _ = sort.Strings\nvar _ = strings.Join\n")
 	sb.WriteString(oracleSupport)
 	sb.WriteString("\nfunc TestGovcOracle(t *testing.T) {\n")
 	sb.WriteString(fmt.Sprintf("\trnd := rand.New(rand.NewSource(%d))\n", int64(o.Seed)+1))
@@ -284,6 +317,9 @@ func runOracles(o *CheckOpts, prog *Program, oracles []*ssa.Function, budgetS in
 	}
 	sb.WriteString("\t}\n\tfmt.Printf(\"GOVC-ORACLE-PASS cases=%d discarded=%d\\n\", cases, discarded)\n}\n")
 	rc := &replayCtx{o: o, prog: prog}
+	if d := os.Getenv("GOVC_DEBUG_DIR"); d != "" {
+		os.WriteFile(filepath.Join(d, "oracle_test.go"), []byte(sb.String()), 0o644)
+	}
 	out, err := rc.runInPackageTestWithMarkers(pkg, sb.String(), fmt.Sprintf(oracleMarkers, pkg.Name()), "^TestGovcOracle$", budgetS+60)
 	if err != nil && !strings.Contains(out, "GOVC-") {
 		return nil, "oracle run failed: " + err.Error() + ": " + truncate(out, 1500)
